@@ -198,5 +198,15 @@ def after_calls_cases(rng, n, own, minlen=8, maxlen=50):
         rng.shuffle(pre)
         if k % 2:
             pre = pre[:rng.randint(1, 4)]
-        lines = ["new 0 " + s] + ["o 0 " + q for q in pre] + ["o 0 " + q for q in own]
-        yield Case(lines, {"kind": "after-other-calls", "judge_from": 1 + len(pre)})
+        scene = ["o 0 " + q for q in pre]
+        # state-changing calls that must not touch any analysis either: phosphosites set / cleared, a palette installed
+        if rng.random() < 0.6:
+            from .real import hex6
+            pal = ",".join("%s=%s" % (hex6(a), hex6(rng.choice(["red", "blue", "teal", "olive", "black"]))) for a in AAS)
+            extra = ["setphos 0 " + " ".join(str(rng.randint(-1, len(s) + 1)) for _ in range(rng.randint(1, 4))), "clearphos 0", "setpal 0 " + pal,
+                     "setphos 0 " + " ".join(str(i + 1) for i, c in enumerate(s) if c in "STY")[:40]]
+            for e in extra:
+                if e.strip() != "setphos 0" and rng.random() < 0.7:
+                    scene.insert(rng.randint(0, len(scene)), e)
+        lines = ["new 0 " + s] + scene + ["o 0 " + q for q in own]
+        yield Case(lines, {"kind": "after-other-calls", "judge_from": 1 + len(scene)})
